@@ -43,6 +43,7 @@ func ColdStart(r *Report) {
 	if err := spec.V4Init(); err != nil {
 		return
 	}
+	defer ColdFirst(r) // every scoring method as the first scoring call of its own fresh process
 	report := func(ver *spec.Version, vec, key, exp, obs string) {
 		r.Violation(Case{Kind: "cold", Key: key + "@first-call-of-process", Expected: exp, Observed: obs + " on " + vec + " as the first scoring call of a fresh process",
 			Args: map[string]any{"version": ver.Name, "vector": vec}}, nil)
